@@ -39,6 +39,8 @@ func C06(c *Ctx) {
 	r.Rule("C06/R3", "partial signatures are bound to the current batch: request.BatchID == SigningProposalPayload.BatchID dominates every store", 1)
 	r.Rule("C06/R4", "cancel only under count(SigningError) > N-T; collected only when failures <= N-T", 2)
 	r.Rule("C06/R5", "restart leads collected/cancelled -> idle and is issued by the node on the collected path", 4)
+	r.Rule("C06/R6", "a stale deadline cannot cancel a batch before t contributions arrived (shared with C07/R4)", 1)
+	c07DeadlineAs(c, "C06/R6")
 
 	kConf, ok1 := c.internalConst("C06/R1", "SigningPartialSignsConfirmed")
 	kErr, ok2 := c.internalConst("C06/R4", "SigningError")
